@@ -279,12 +279,164 @@ def operator_roles(model, m, f):
     return None
 
 
+def _names_of(v):
+    from ..absint import Atom, Sym
+    if isinstance(v, Sym):
+        return v.name
+    if isinstance(v, Atom):
+        return (v.op,) + tuple(_names_of(a) for a in v.args)
+    return repr(v)
+
+
+def _operand_order(v):
+    """Order in which the operand symbols L and R occur in a result expression."""
+    from ..absint import Atom, Sym
+    out = []
+
+    def go(x):
+        if isinstance(x, Sym) and x.name in ('a', 'b'):
+            out.append({'a': 'L', 'b': 'R'}[x.name])
+        elif isinstance(x, Atom):
+            for a in x.args:
+                go(a)
+    go(v)
+    return out
+
+
+def _interp_action(model, g, m, f, items):
+    """Abstractly run one reduce action on the production value list ``items``; returns outcomes (value = p[0])."""
+    from ..absint import Interp, Func, ListV, Obj, ClassV, Const
+    from .. import abshelp as H
+    it = Interp(model, opaque=H.date_opaque(model))
+
+    def call(interp, st):
+        pl = ListV([Const(None)] + items(), 'list')
+        interp.call(Func(m, f), [Obj(ClassV(g.gm, g.gcls), {}), pl])
+        return pl.items[0]
+    return it.run(call)
+
+
+def _unary_interp(model, res, g, m, f, p, E, site):
+    """( E ) must be the identity and -E the negation, decided by running the action; None = not interpretable."""
+    from ..absint import Sym, Const, Atom, Unmodelled
+    from .. import abshelp as H
+    paren = len(p.syms) == 3
+    results = []
+    for tag in ('int', 'float', 'str') if paren else ('int', 'float'):
+        mk = (lambda: [Const('('), H.mk(tag, 'a'), Const(')')]) if paren else (lambda: [Const('-'), H.mk(tag, 'a')])
+        try:
+            outs = _interp_action(model, g, m, f, mk)
+        except Unmodelled:
+            return None
+        except Exception:
+            return None
+        if not outs or any(o.imprecise for o in outs):
+            return None
+        for o in outs:
+            if paren:
+                ok = o.kind == 'return' and isinstance(o.value, Sym) and o.value.name == 'a'
+            else:
+                ok = o.kind == 'return' and isinstance(o.value, Atom) and o.value.op == 'neg' and len(o.value.args) == 1 \
+                    and isinstance(o.value.args[0], Sym) and o.value.args[0].name == 'a'
+            results.append((tag, ok, '%s %r' % (o.kind, o.value)))
+    bad = [r for r in results if not r[1]]
+    what = 'interpreted: ( a ) is a' if paren else 'interpreted: - a is neg(a)'
+    res.ob('R4', site, what, not bad, '; '.join(r[2] for r in (bad or results))[:200])
+    if bad:
+        if paren:
+            res.violation('R4', site + ':paren-not-identity', m.where(f),
+                          'the action for ( E ) is not the identity: for an operand a of type %s it gives %s: redundant parentheses change the value'
+                          % (bad[0][0], bad[0][2]), func=f.name)
+        else:
+            res.violation('R4', site + ':unary-action', m.where(f),
+                          'the action for unary minus does not compute the negation: for an operand a of type %s it gives %s' % (bad[0][0], bad[0][2]),
+                          func=f.name)
+    return not bad
+
+
+def _r4_interp(model, res, c, g, E):
+    """Operand roles decided on the reduce actions themselves: each binary production is run on (L, lexeme, R) with integer
+    symbols; the value must be the property's operator applied to (L, R) in that order.  Returns the set of action function names
+    decided this way (the syntactic recogniser below handles the rest)."""
+    from ..absint import Sym, Const, Atom, Err, Unmodelled
+    from .. import roles
+    from . import c07
+    decided = set()
+    n = 0
+    try:
+        lex = roles.operator_lexemes(g, [t for t in BINARY])
+    except AnalysisError:
+        return decided, 0
+    cmp_cell = {}
+    cmp_site = None
+    for p in g.productions:
+        if not (len(p.syms) == 3 and p.syms[1] in BINARY and p.syms[0] == p.syms[2] == E and p.name == E):
+            continue
+        m, f = g.action_funcs[p.funcname]
+        tok = p.syms[1]
+        site = '%s:%s.%s' % (m.name, g.gcls.name, p.funcname)
+        try:
+            outs = _interp_action(model, g, m, f, lambda: [Sym('int', 'a'), Const(lex[tok]), Sym('int', 'b')])
+        except Unmodelled as e:
+            res.notes.append('C04.R4: action %s not interpretable (%s); syntactic recogniser used' % (p.funcname, e))
+            continue
+        except Exception as e:
+            res.notes.append('C04.R4: action %s: interpreter failed (%r); syntactic recogniser used' % (p.funcname, e))
+            continue
+        if any(o.imprecise for o in outs) or not outs:
+            res.notes.append('C04.R4: action %s depends on an unmodelled construct; syntactic recogniser used' % p.funcname)
+            continue
+        n += 1
+        decided.add((p.funcname, tok))
+        if tok in COMPARISONS:
+            cmp_cell.setdefault((m, f, site), {})[c07.OPS[tok]] = outs
+            continue
+        want_op = 'concat' if tok == CONCAT else OPERATOR_ORACLE[LEXEME_ORACLE[tok]]
+        ok, why = True, ''
+        for o in outs:
+            if o.kind != 'return':
+                ok, why = False, 'raises %r' % (o.value,)
+                break
+            v = o.value
+            if isinstance(v, Err):
+                continue                    # e.g. #DIV/0! on a trace where R is zero
+            order = _operand_order(v)
+            if not (isinstance(v, Atom) and v.op == want_op):
+                ok, why = False, 'value %r is not %s applied to the operands' % (v, want_op)
+            elif tok in ('PLUS', 'MULT'):
+                ok = sorted(order) == ['L', 'R']
+                why = 'operands %s' % order
+            else:
+                ok = order == ['L', 'R']
+                why = 'operands reach %s in order %s' % (want_op, order)
+            if not ok:
+                break
+        res.ob('R4', site, 'interpreted: %s L %s R' % (E, lex[tok]), ok, why or 'value is %s(L, R)' % want_op)
+        if not ok:
+            res.violation('R4', site + ':operand-roles:%s' % tok, m.where(f),
+                          'the reduce action for "%s %s %s" does not apply %s to (left operand, right operand) in that order: %s'
+                          % (E, lex[tok], E, want_op, why), case={'operator': lex[tok]}, func=p.funcname)
+    # comparisons: truth in the three worlds L<R, L=R, L>R (same evaluation as C07, integer operands only)
+    for (m, f, site), cell in cmp_cell.items():
+        from ..report import Result
+        tmp = Result(res.prop)
+        c07._check_cell(tmp, {'logic': (m, f)}, 'int', 'int', cell)
+        for o in tmp.obligations:
+            res.ob('R4', site, o['case'], o['verdict'] == 'discharged', o.get('detail'))
+        for fd in tmp.findings:
+            res.violation('R4', site + ':operand-roles:' + fd.construct.split(':')[-1], fd.where,
+                          'the reduce action does not compare (left operand, right operand) in those roles: ' + fd.why,
+                          case=fd.case, func=f.name)
+    return decided, n
+
+
 def _r4(model, res, c, g):
     E = getattr(g, 'E', 'expression')
     by_func = {}
     for p in g.productions:
         by_func.setdefault(p.funcname, []).append(p)
-    n_bin = 0
+    decided, n_bin = _r4_interp(model, res, c, g, E)
+    res.analysed['binary productions decided by interpretation'] = n_bin
     for fname, prods in sorted(by_func.items()):
         m, f = g.action_funcs[fname]
         ps = sa.params(f)
@@ -292,7 +444,8 @@ def _r4(model, res, c, g):
             continue
         pn = ps[1]
         site = '%s:%s.%s' % (m.name, g.gcls.name, fname)
-        binops = [p for p in prods if len(p.syms) == 3 and p.syms[1] in BINARY and p.syms[0] == p.syms[2] == E]
+        binops = [p for p in prods if len(p.syms) == 3 and p.syms[1] in BINARY and p.syms[0] == p.syms[2] == E
+                  and (fname, p.syms[1]) not in decided]
         if binops:
             # every call that receives p[1] and p[3] must put them in (left, right) roles
             calls = [n for n in walk_no_defs(f) if isinstance(n, ast.Call)]
@@ -331,6 +484,10 @@ def _r4(model, res, c, g):
                             res.violation('R4', site + ':concat-order', m.where(n),
                                           'concatenation joins the operands in the wrong order (%s)' % src(n), func=fname)
         for p in prods:
+            if p.syms in (['LPAREN', E, 'RPAREN'], ['MINUS', E]):
+                verdict = _unary_interp(model, res, g, m, f, p, E, site)
+                if verdict is not None:
+                    continue
             if p.syms == ['LPAREN', E, 'RPAREN']:
                 stores = [n for n in walk_no_defs(f) if isinstance(n, ast.Assign) and any(_p_index(t, pn) == 0 for t in n.targets)]
                 other = [n for n in walk_no_defs(f) if isinstance(n, (ast.AugAssign,)) and _p_index(n.target, pn) == 0]
